@@ -7,5 +7,8 @@ import Refine.Model.CellTopo
 import Refine.Model.Geom
 import Refine.Model.Comm
 import Refine.Lemmas.ScalarReal
+import Refine.Lemmas.Comm
+import Refine.Lemmas.CommReduce
+import Refine.Lemmas.CommSelect
 import Refine.Props.C15
 import Refine.Props.C17
